@@ -70,6 +70,21 @@ theorem generic_fields_nil_checked : Facts.C21.genericUnchecked = 0 := by decide
 /-- No generated type uses the generator's (defective) double-vector loop. -/
 theorem no_double_vectors : Facts.C21.doubleVectors = 0 := by decide
 
+/-! ### Kernel-checked instances: the MTProto (mt/) and end-to-end (tg/e2e/) schemas
+
+`coreSchema` is the regenerated schema of the 139 mt + e2e constructors as a Lean term; its
+well-formedness is checked by the kernel, so for these the round trip holds without trusting the
+compiled evaluator (the 2490 tg constructors are covered by `Schema.wf` evaluated in the driver,
+which also checks that the data file starts with exactly `coreSchema`). -/
+
+theorem core_schema_wf : coreSchema.wf = true := by decide +kernel
+
+theorem core_schema_size : coreSchema.ctors.size = 139 ∧ coreSchema.ifaces.size = 17 := by decide +kernel
+
+theorem core_roundtrip (t : Ty) (v : Val) (e rest : Bytes) (henc : encTy coreSchema t v = some e) :
+    decTy coreSchema v.size t (e ++ rest) = .ok (v, rest) :=
+  tl_roundtrip coreSchema core_schema_wf t v e rest v.size henc (Nat.le_refl _)
+
 /-! Non-vacuity: a small schema with an interface of two constructors, a flags word, a
 conditional field, a true-flag and a vector; it is well-formed and the value is encodable. -/
 
